@@ -33,7 +33,7 @@ func checkC16(p *load.Program, r *kit.Report) {
 	r.Rule("CHAN-BUDGET", "Started/Complete have capacity ≥ 2; HandleBlock sends Started first and exactly one Complete on every return; Cancel and Stop send at most one of each, only on the edge where isCancelled was false, and that test and the store isCancelled=true are one stateLock critical section ⇒ at most 2 sends per channel, no sender can block", 8)
 	r.Rule("BLOCKING-OP", "every select in BlockDownloader.Run and cancelAndWaitForComplete has a timer arm; the wait loop is bounded", 3)
 	r.Rule("GUARD-DOM", "markBlockRequestComplete is called only behind err == nil; it closes currentComplete only behind hash.Equal(&m.currentHash) and !currentIsComplete, setting the flag, under currentLock; new requests in the poll arm only behind activeDownloadCount < concurrentBlockRequests", 3)
-	r.Rule("MUST-PASS", "every nil return of processRequest performs exactly one terminal operation on request.complete (send BlockAborted xor close) after cancelDownloaders; onDownloaderCompleted removes the downloader on every path", 3)
+	r.Rule("MUST-PASS", "every nil return of processRequest performs exactly one terminal operation on request.complete (send BlockAborted xor close) after cancelDownloaders; onDownloaderCompleted removes the downloader on every path; a processRequest error (no terminal signal was given) ends BlockManager.Run", 4)
 	r.Rule("CALLBACK-UNLOCKED", "a function value kept in a field (block handler, on-stop callback, header handler, message handler) is called only with no mutex held by the caller (lock-order cycles with the callee's own locks)", 3)
 	r.Rule("GIVE-UP", "processRequest abandons a block only after consecutive polls without any active download; removeDownloader removes exactly the given downloader (identity); HandleBlock sends nil on Complete only as handleBlock's result for the requested hash", 3)
 	r.Rule("SNAPSHOT", "cancelDownloaders/Stop cancel the elements of a snapshot of the downloader list copied under downloaderLock (completions shrink the live list concurrently)", 2)
@@ -256,6 +256,7 @@ func checkC16(p *load.Program, r *kit.Report) {
 	checkGiveUpOnlyIdle(p, r, "GIVE-UP")
 	checkRemoveDownloaderIdentity(p, r, "GIVE-UP")
 	checkCompleteCarriesVerdict(p, r, "GIVE-UP")
+	checkErrorStopsManager(p, r, "MUST-PASS")
 
 	// LOCKSET
 	funcs := pkgFuncs(p, R)
